@@ -249,18 +249,10 @@ theorem auth_fuel_enough (c : Conn) (n : Nat) : auth c (n + 3) = auth c 3 := by
   rw [auth_succ_succ c (n+1), auth_succ_succ c 1]
 
 /-- a disconnected connection object can be connected again: the call is accepted whenever the
-    API's own preconditions hold -/
+    API's own preconditions hold — a JID is set, and its domain part is not empty and does not
+    start with a dot (a JID without a usable domain is refused by `xmpp_connect_client` since
+    c81bf46; without that precondition the statement is false: `example` below, JID "") -/
 theorem reconnectable (jid pass : Option Bytes) (cert : Bool) (flags : Nat) (ops : List Op) :
-    let c := exec (fresh jid pass cert flags) ops
-    c.state = .disconnected → c.jid.isSome → c.tcpFail = false →
-      (connectClient c).2 = 0 ∧ (connectClient c).1.state = .connecting ∧
-      (connectClient c).1.queue = [] := by
-  sorry
-
-/-- `reconnectable` with the API precondition that `xmpp_connect_client` checks since the fix
-    "a JID without a usable domain is refused": the domain part of the JID is not empty and does
-    not start with a dot.  Without it the statement above is false (`example` below: JID ""). -/
-theorem reconnectable_partial (jid pass : Option Bytes) (cert : Bool) (flags : Nat) (ops : List Op) :
     let c := exec (fresh jid pass cert flags) ops
     c.state = .disconnected → c.jid.isSome → c.tcpFail = false →
     (∀ j, c.jid = some j → (Jid.domain j).head? ≠ none ∧ (Jid.domain j).head? ≠ some 46) →
@@ -282,7 +274,8 @@ theorem reconnectable_partial (jid pass : Option Bytes) (cert : Bool) (flags : N
     split <;>
       simp [connConnect, connReset, systemDeleteAll, prepareReset, hs, ht]
 
-/-- the counterexample to `reconnectable` as stated: the JID "" is present, the object is
+/-- counterexample to `reconnectable` without the domain precondition (a JID without a usable
+    domain is refused by xmpp_connect_client since c81bf46): the JID "" is present, the object is
     disconnected, TCP would succeed, and the call is refused with XMPP_EINVOP -/
 example :
     let c := exec (fresh (some []) none false 0) []
